@@ -198,3 +198,66 @@ def replay(path):
         return 1
     print(f"not reproduced on {REPO}: property={pid} clause={case['clause']}")
     return 0
+
+
+# ----------------------------------------------------------------------------------------------------------------
+# parallel helpers (fork pool; work functions are module-level, results picklable)
+
+def _pool_jobs():
+    return int(os.environ.get("VERIF_JOBS", "16"))
+
+
+def _pm_worker(fn, idx_items, conn):
+    out = []
+    for i, it in idx_items:
+        try:
+            out.append((i, True, fn(it)))
+        except BaseException as e:          # noqa: BLE001 - reported to the parent
+            out.append((i, False, f"{type(e).__name__}: {e}\n{traceback.format_exc()}"))
+    conn.send(out)
+    conn.close()
+
+
+def parallel_map(fn, items, jobs=None, chunksize=1):
+    """fork-based map with non-daemonic workers (workers may start their own solver processes)"""
+    import multiprocessing as mp
+    items = list(items)
+    jobs = min(jobs or _pool_jobs(), max(1, len(items)))
+    if jobs <= 1 or len(items) <= 1:
+        return [fn(i) for i in items]
+    ctx = mp.get_context("fork")
+    procs = []
+    for k in range(jobs):
+        chunk = [(i, it) for i, it in enumerate(items) if i % jobs == k]
+        pc, cc = ctx.Pipe(duplex=False)
+        p = ctx.Process(target=_pm_worker, args=(fn, chunk, cc), daemon=False)
+        p.start()
+        cc.close()
+        procs.append((p, pc))
+    res = [None] * len(items)
+    for p, pc in procs:
+        try:
+            for i, ok, v in pc.recv():
+                if not ok:
+                    raise RuntimeError(f"worker failed: {v}")
+                res[i] = v
+        finally:
+            p.join()
+    return res
+
+
+def run_bounded(chk, items, evalfn, chunks=64):
+    """evalfn(list_of_items) -> (counts {clause: [evals, nontrivial]}, violations [(clause, key, what, case)], samples)"""
+    items = list(items)
+    if not items:
+        return
+    k = max(1, min(chunks, len(items)))
+    parts = [items[i::k] for i in range(k)]
+    for counts, viols, samples in parallel_map(evalfn, parts):
+        for cl, (n, nt) in counts.items():
+            chk.count(cl, n, nt)
+        for cl, key, what, case in viols:
+            chk.violation(cl, key, what, case)
+        for s_ in samples:
+            if len(chk.samples) < 6:
+                chk.samples.append(s_)
